@@ -73,3 +73,10 @@ Qed.
 
 Theorem refuted_rate_shared_thm : ~ RaceFree (exec only_rate 1 w_rate).
 Proof. destruct witnesses_racy as (_ & _ & _ & _ & _ & F & _). now apply racy_not_race_free. Qed.
+
+(* the hypothesis of [monitor_sound_gen] is met by non-trivial traces: a complete block with two channels
+   followed by an archive request that fills, 110 events *)
+Example monitor_sound_hypothesis_met :
+  monitor_accepts fixed (exec fixed 2 (one_block 2 ++ w_arch)) = true /\
+  length (exec fixed 2 (one_block 2 ++ w_arch)) = 110.
+Proof. vm_compute. split; reflexivity. Qed.
